@@ -90,10 +90,26 @@ def gen_case(rng, ident, force=None):
         cand = [i for i, t in enumerate(argtys) if t == 'n']
         guard_pos = rng.choice(cand)
     alts = []
-    for _ in range(nalts):
+    # with two alternatives over (n, n) the guard variable may be bound at a different position in the second
+    # alternative: `(x, _) | (_, x) if *x == 1` — the guard has to be re-evaluated per alternative
+    swap = use_guard and nalts == 2 and argtys == ['n', 'n'] and rng.chance(1, 2)
+    for ai in range(nalts):
         elems = []
+        bind_here = guard_pos
+        if swap and ai == 1:
+            bind_here = 1 - guard_pos
         for pos, t in enumerate(argtys):
-            if pos == guard_pos:
+            if use_guard and pos == bind_here:
+                # must bind x{guard_pos} (the guard reads it)
+                if rng.chance(1, 2):
+                    elems.append(('P', Pat(f"x{guard_pos}", f"b{guard_pos}", [guard_pos])))
+                else:
+                    inner = pat_n(rng, pos, 1, False)
+                    r = f"x{guard_pos} @ ({inner.rust})" if '|' in inner.rust else f"x{guard_pos} @ {inner.rust}"
+                    elems.append(('P', Pat(r, f"a{guard_pos}({inner.sexpr})", [guard_pos])))
+            elif swap and ai == 1 and pos == guard_pos:
+                elems.append(('P', pat_n(rng, pos, 1, False)))
+            elif False and pos == guard_pos:
                 # must bind x{pos} (the guard reads it)
                 if rng.chance(1, 2):
                     elems.append(('P', Pat(f"x{pos}", f"b{pos}", [pos])))
@@ -212,6 +228,19 @@ def gen_cases(seed, n):
     fixed = Case(); fixed.ident = 'f0'; fixed.types = 'nn'; fixed.method = 'm_nn'
     fixed.alts = [[('EQ', 1), ('P', Pat('x1', 'b1', [1]))]]; fixed.guard = ('*x1 == 0 || *x1 == 3', 'O(q1:0,q1:3)')
     cases.append(fixed)
-    for k in range(n):
-        cases.append(gen_case(rng.fork(), f"g{k}"))
+    # refutable bare identifiers (`None`) next to wildcards / bindings, with and without a second alternative
+    firsts = [Pat('None', 'N'), Pat('_', 'w'), Pat('Some(_)', 'S(w)'), Pat('Some(x0)', 'S(b0)', [0])]
+    seconds = [Pat('_', 'w'), Pat('x1', 'b1', [1]), Pat('2', 'l2')]
+    k = 0
+    for a in firsts:
+        for b in seconds:
+            c = Case(); c.ident = f"k{k}"; c.types = 'on'; c.method = 'm_on'; c.guard = None
+            c.alts = [[('P', a), ('P', b)]]
+            cases.append(c); k += 1
+    for (a1, b1, a2, b2) in [(0, 2, 1, 0), (2, 0, 0, 1), (0, 0, 2, 2), (3, 2, 0, 0), (0, 1, 3, 0)]:
+        c = Case(); c.ident = f"k{k}"; c.types = 'on'; c.method = 'm_on'; c.guard = None
+        c.alts = [[('P', firsts[a1]), ('P', seconds[b1])], [('P', firsts[a2]), ('P', seconds[b2])]]
+        cases.append(c); k += 1
+    for k2 in range(n):
+        cases.append(gen_case(rng.fork(), f"g{k2}"))
     return cases
